@@ -144,6 +144,18 @@ structure ResolveResult where
   deactivated : Bool := false
   deriving Repr, DecidableEq, Inhabited
 
+/-- SQL store (did_document_version): the latest version decides; a version is active iff it has keys
+    (`IsDeactivated`: no controller and no capabilityInvocation). `hist` = versions oldest first, `true` = active. -/
+def sqlState (hist : List Bool) : LocalState :=
+  match hist.getLast? with
+  | none => .absent
+  | some true => .active
+  | some false => .deactivated
+
+/-- did:nuts store (vdr/didnuts/didstore, modelled in C10): deactivation is permanent (`C10.Props.deactivated_monotone`) -/
+def nutsStateOf (hist : List Bool) : LocalState :=
+  if hist = [] then .absent else if hist.all id then .active else .deactivated
+
 /-- `didsubject.Resolver.Resolve` -/
 def resolveLocal (st : LocalState) (allowDeactivated : Bool) (d : DID) : Res ResolveResult :=
   match st with
@@ -176,13 +188,11 @@ def resolve (dec : List Nat) (cts : List Bytes) (pol : Policy) (localFirst : Boo
   if d.method = sWeb then
     if !n.didMethods.contains sWeb then ([], .err "method-not-supported") else
     if localFirst then
-      match resolveLocal (n.localState d) allowDeactivated d with
-      | .err "not-found" => web
-      | r => ([], r)
-    else
-      match web with
-      | (reqs, .err "not-found") => (reqs, resolveLocal (n.localState d) allowDeactivated d)
-      | r => r
+      -- ChainedDIDResolver: only ErrNotFound (= the store has no such DID) moves on to the next resolver
+      match n.localState d with
+      | .absent => web
+      | st => ([], resolveLocal st allowDeactivated d)
+    else web   -- the web resolver never returns ErrNotFound: a web-first chain would never consult the store
   else if d.method = sJwk || d.method = sKey then
     ([], if n.keyDecodes d then .ok { docID := d.str } else .err "invalid-key")
   else if d.method = sNuts then
